@@ -60,6 +60,9 @@ FRAGMENTS = [
     "rows = []\nfor i in range(t.shape[0]):\n    rows.append(t[i] * 2)\nr = torch.stack(rows)",
     "parts = [t[:, :1], t[:, 1:]]\nr = torch.cat(parts, dim=1)",
     "r = t.reshape(-1)[::2]",
+    "r = t.gather(1, torch.tensor([[2, 0, 0, 1], [1, 1, 2, 0]]))",
+    "r = t.gather(0, torch.tensor([[1, 0, 0]]))",
+    "ix = torch.tensor([0, 1, 1, 2]).unsqueeze(0).repeat_interleave(2, dim=0)\nr = t.gather(1, ix) - 1",
     "r = t[::2, 1]",
     "r = t[:, ::2]",
     "r = t[1:, 1::2]",
